@@ -154,7 +154,7 @@ def evalHist (steps : List Sexp) : Option String := do
 -/
 
 def rtLoc (l : Loc) : Loc :=
-  match parseLocation l.print.toUTF8.toList with
+  match parseLocation l.printB with
   | .ok (l', []) => l'
   | _ => l
 
